@@ -17,6 +17,7 @@ import (
 	mrand "math/rand/v2"
 	"os"
 	"path/filepath"
+	"runtime"
 	"strconv"
 	"strings"
 	"testing"
@@ -65,10 +66,41 @@ func TestVerif(t *testing.T) {
 		w := bufio.NewWriter(out)
 		cases := splitCases(in)
 		fx := newFixtures(t)
+		// real-time watchdog: a case that makes no progress for VERIF_CASE_TIMEOUT seconds (default 40) is a hang
+		// of the code under test (e.g. a lock cycle, which a synctest bubble cannot report because goroutines
+		// waiting for a mutex are not durably blocked). The partial output is kept; the process exits with 3.
+		limit := 40 * time.Second
+		if v, err := strconv.Atoi(os.Getenv("VERIF_CASE_TIMEOUT")); err == nil && v > 0 {
+			limit = time.Duration(v) * time.Second
+		}
+		progress := make(chan string, 1)
+		go func() {
+			cur := ""
+			for {
+				select {
+				case c, ok := <-progress:
+					if !ok {
+						return
+					}
+					cur = c
+				case <-time.After(limit):
+					w.Flush()
+					fmt.Fprintf(w, "HANG: no progress for %s in %q\n", limit, cur)
+					w.Flush()
+					fmt.Fprintf(os.Stderr, "VERIF-HANG in %q\n", cur)
+					buf := make([]byte, 1<<20)
+					n := runtime.Stack(buf, true)
+					os.Stderr.Write(buf[:n])
+					os.Exit(3)
+				}
+			}
+		}()
 		for _, c := range cases {
+			progress <- c.header
 			e.run(t, fx, c, w)
 			w.Flush()
 		}
+		close(progress)
 		out.Close()
 	default:
 		t.Fatalf("unknown mode %q", mode)
